@@ -1,6 +1,7 @@
 (* C03 — every trace of Model/Stack.v is accepted by the monitor Spec/C03Spec.v. *)
 From Verif Require Import Base.Prelude Model.Stack Spec.StackObs Spec.BindReg Spec.C03Spec
   Proofs.StackLemmas Proofs.StackInv Proofs.BindRegProofs.
+From Verif Require Import Model.StackX Spec.StackXSpec Proofs.StackXProofs.
 
 (* ---------- the data store ---------- *)
 Definition kd (x : lfeat) : eaddr * N * list (N * N) := (lf_ent x, lf_id x, lf_data x).
@@ -598,3 +599,7 @@ Proof.
   destruct (eqb_faddr (e_cli x) writer) eqn:E; [|rewrite andb_false_r; reflexivity].
   apply eqb_faddr_eq in E. rewrite (H x (or_introl eq_refl) E), N.eqb_refl. reflexivity.
 Qed.
+
+(* ---------- teardown overlapped by another peer's registry call (Model/StackX.v) ---------- *)
+Theorem xrun_accepted ops : xaccepted (xjudge mon minit (snd (xrun init ops))) = true.
+Proof. apply (xrun_accepted_from mon Inv step_inv). exact inv_init. Qed.
